@@ -103,6 +103,18 @@ func (w *World) provablyNonEmpty(v ssa.Value, nonEmptyStr func(ssa.Value) bool, 
 				return true, "strings.Split(s, \"\") of a non-empty string"
 			}
 		}
+	case *ssa.MakeSlice:
+		// make([]T, len(c)) of a provably non-empty c
+		if ln, ok := x.Len.(*ssa.Call); ok && calleeName(ln) == "builtin:len" && len(ln.Call.Args) == 1 {
+			arg := ln.Call.Args[0]
+			if b, isStr := arg.Type().Underlying().(*types.Basic); isStr && b.Info()&types.IsString != 0 {
+				if nonEmptyStr != nil && nonEmptyStr(arg) {
+					return true, "make([]T, len(s)) of a non-empty string"
+				}
+			} else if ok, why := w.provablyNonEmpty(arg, nonEmptyStr, depth+1); ok {
+				return true, "make([]T, len(c)) where c is non-empty: " + why
+			}
+		}
 	case *ssa.Convert:
 		if typeString(x.Type()) == "[]rune" && nonEmptyStr != nil && nonEmptyStr(x.X) {
 			return true, "[]rune of a non-empty string"
